@@ -75,8 +75,11 @@ check('C04',
       '(thorough) parts over 36 part kinds x 3 default-option settings and checks SkippedIsRef, PersistentIsFold, OverlayEmptyAtChoose, '
       'OutcomeIsRef; every terminal state is rendered (statement shapes one-line / bracketed / compound / decorated rotate; conditions are env:, '
       'module: and argv requirements the harness controls) and run by the real DocTest.run: executed statements, skipped parts, verdict, logged '
-      'stdout and the final persistent RuntimeState must equal the prediction.',
-      DOCRUN_NOTE, 'TLA+ run-loop spec vs declarative fold (TLC exhaustive), exhaustive replay of TLC terminal states into DocTest.run',
+      'stdout and the final persistent RuntimeState must equal the prediction. Layer below: Directive.tla models the text of a directive comment '
+      '(option syntax: token scan with paren stack vs the documented syntax; recognition: prefixes x placements; 28 REQUIRES condition spellings: '
+      'ladder vs documented meaning; effect on the state); every case is replayed through Directive.extract, _is_requires_satisfied and a doctest.',
+      DOCRUN_NOTE, 'TLA+ run-loop spec vs declarative fold (TLC exhaustive), exhaustive replay of TLC terminal states into DocTest.run; TLA+ '
+      'directive-comment spec (TLC exhaustive) replayed into Directive.extract and doctests',
       'DESIGN.md section 5 (C04)', 'docrun')
 
 check('C09',
@@ -282,6 +285,7 @@ def main():
             {'name': 'modpath', 'path': 'specs/ModPath.tla', 'serves_properties': ['C17', 'C07', 'C12'], 'kind_free_text': 'TLA+ spec of module name/path resolution, split and package walk over directory trees; MC_ModPath.tla; harness/c17.py materialises trees'},
             {'name': 'pathctx', 'path': 'specs/PathCtx.tla', 'serves_properties': ['C12', 'C17'], 'kind_free_text': 'TLA+ spec of PythonPathContext around an import whose module changes sys.path; every behaviour replayed into the real context manager (harness/c12.py)'},
             {'name': 'session', 'path': 'specs/Session.tla', 'serves_properties': ['C10', 'C11', 'C15'], 'kind_free_text': 'TLA+ spec of a process running collected doctests through the native and pytest front ends or in arbitrary histories; harness/sessionlib.py renders by-construction doctests'},
+            {'name': 'directive', 'path': 'specs/Directive.tla', 'serves_properties': ['C04'], 'kind_free_text': 'TLA+ spec of directive comments (option syntax, recognition, REQUIRES conditions, effects); MC_Directive.tla alphabets; harness/dirlib.py replays'},
             {'name': 'sessiontrace', 'path': 'specs/SessionTrace.tla', 'serves_properties': ['C10'], 'kind_free_text': 'TLA+ trace specification of the native runner session; validates session events recorded by harness/probe.py from the real runner (harness/tracelib.py)'},
             {'name': 'docruntrace', 'path': 'specs/DocRunTrace.tla', 'serves_properties': ['C02', 'C03', 'C04', 'C09', 'C12'], 'kind_free_text': 'TLA+ trace specification of DocTest.run; validates run-loop events recorded by harness/probe.py (replayed cases, library doctests, repository tests)'},
             {'name': 'match', 'path': 'specs/Match.tla', 'serves_properties': ['C05', 'C06'], 'kind_free_text': 'TLA+ spec of output matching (normalisation pipeline, ellipsis) + MatchTrace.tla trace spec; TLC'},
